@@ -125,6 +125,16 @@ func runC13(s *core.Sim, tier string) RunInfo {
 		s.Aborted = "client start: " + err.Error()
 		return RunInfo{}
 	}
+	if s.Tape.Coin("no-tracked-peers", 1, 4) {
+		// every connection is lost before the call: the peer tracker knows nobody, the trusted
+		// peers are dialled again by the request itself
+		for _, i := range trusted {
+			_ = w.Net.DisconnectPeers(w.Hosts[0].ID(), w.Hosts[i].ID())
+		}
+		s.Quiesce(500 * time.Millisecond)
+		desc = append(desc, "nobody tracked")
+		s.Probe("request-with-empty-tracker")
+	}
 	deadline := 3 * time.Second
 	var got *H
 	var gerr error
